@@ -14,7 +14,10 @@
   A step is an API call on one half or the delivery of the oldest message of one channel.
 
   Modelling decisions (each one is a place where the tie to the code is by correspondence):
-  * an address is the index `k` of its port (`"/p<k>"`); `inv_map` (a `std::map`) is an
+  * an address is the index `k` of its port (the harness spells it `"/p<k>"`, or longer and
+    nested in sub-tables: at most 3 x `"d<k>/"` + `"p<k>"` + up to 60 characters; distinct ports
+    have distinct addresses, `apropos` finds each, and every message fits the callbacks' 1024
+    byte buffers — the address text itself is not modelled); `inv_map` (a `std::map`) is an
     association list — no operation in scope iterates over it;
   * controller IDs are `Nat` (`handleCC` builds them from non-negative parts); the `-1`
     "no controller" sentinel of `inv_map` is `none`;
@@ -43,6 +46,71 @@ structure PortSpec where
   min8 : Int
   max8 : Int
   deriving DecidableEq, Repr, Inhabited
+
+/-! ### Port declarations: what `generateNewBijection` reads off a `rtosc::Port`
+
+  The harness builds port `k` with the name `"p<k>" ++ pad ++ signature`, where the signature
+  is one of the spellings applications use, and with further metadata keys around `min`/`max`.
+  `generateNewBijection` reads `meta["min"]`, `meta["max"]` (the other keys are not looked at)
+  and decides the message type by `strstr(port.name, ":i")`. -/
+
+/-- the argument signature behind the port's name -/
+inductive Sig where
+  | i      -- `":i"`
+  | f      -- `":f"`
+  | oi     -- `"::i"`   (optional argument: the usual `rParamI` spelling)
+  | of     -- `"::f"`
+  | fi     -- `":f:i"`  (accepts both)
+  | ifl    -- `":i:f"`  (accepts both)
+  deriving DecidableEq, Repr, Inhabited
+
+def Sig.text : Sig → List Char
+  | .i => [':', 'i']
+  | .f => [':', 'f']
+  | .oi => [':', ':', 'i']
+  | .of => [':', ':', 'f']
+  | .fi => [':', 'f', ':', 'i']
+  | .ifl => [':', 'i', ':', 'f']
+
+/-- does a message of type `'i'` fit the signature? -/
+def Sig.acceptsInt : Sig → Bool
+  | .f | .of => false
+  | _ => true
+
+/-- the characters long names are padded with (64; the protocol uses at most 60) -/
+def padText : List Char := "_long_parameter_name_for_midi_learn_with_many_characters_in_it_x".toList
+
+/-- `strstr`-style tests on character lists -/
+def isPrefixL : List Char → List Char → Bool
+  | [], _ => true
+  | _ :: _, [] => false
+  | p :: ps, c :: cs => p == c && isPrefixL ps cs
+
+def hasInfix (pat : List Char) : List Char → Bool
+  | [] => isPrefixL pat []
+  | c :: cs => isPrefixL pat (c :: cs) || hasInfix pat cs
+
+/-- A port as the op line declares it: index `k ≤ 9`, signature, padding of the name, nesting
+    depth of its address, the extra metadata keys (`flags`; the code never looks at them) and
+    the range. -/
+structure PortDecl where
+  idx : Nat
+  sig : Sig
+  flags : List Char
+  min8 : Int
+  max8 : Int
+  depth : Nat
+  pad : Nat
+  deriving DecidableEq, Repr, Inhabited
+
+/-- `port.name` -/
+def PortDecl.name (d : PortDecl) : List Char :=
+  'p' :: Char.ofNat (48 + d.idx) :: (padText.take d.pad ++ d.sig.text)
+
+/-- the part of `generateNewBijection` in front of the lambdas: `bi.min`, `bi.max` from the
+    metadata, `type = strstr(port.name, ":i") ? 'i' : 'f'` -/
+def PortDecl.toSpec (d : PortDecl) : PortSpec :=
+  ⟨hasInfix [':', 'i'] d.name, d.min8, d.max8⟩
 
 /-- What the closure built in `generateNewBijection` captured: `addr`, `type`, `bi`. -/
 structure Cb where
